@@ -339,6 +339,38 @@ class SView(SBytes):
     def decode(self, *a, **k):
         raise AttributeError("'memoryview' object has no attribute 'decode'")
 
+    # what bytes/bytearray offer and a memoryview does not
+    def _no_operand(self, other, *a):
+        raise TypeError("unsupported operand type(s): 'memoryview'")
+
+    __add__ = __radd__ = __iadd__ = __mul__ = __rmul__ = _no_operand
+
+    def _no_attr(name):  # noqa: N805
+        def f(self, *a, **k):
+            raise AttributeError("'memoryview' object has no attribute '%s'" % name)
+        return f
+
+    find = _no_attr("find")
+    index = _no_attr("index")
+    startswith = _no_attr("startswith")
+    copy = _no_attr("copy")
+    del _no_attr
+
+    def tolist(self):
+        return list(self.items)
+
+    @property
+    def nbytes(self):
+        return len(self)
+
+    @property
+    def readonly(self):
+        return not self.mutable
+
+    @property
+    def obj(self):
+        return self.base
+
     def hex(self, *a, **k):
         return SBytes(self.items, False).hex(*a, **k)
 
